@@ -86,6 +86,9 @@ func (x *X) execGhost(f *Frame, st *State, g *GhostStmt, pos token.Pos) {
 		}
 		v = x.typed(v, obj.Type())
 		st.vars[obj] = Value{T: obj.Type(), C: v.C}
+		if f.dryGhostSets != nil {
+			f.dryGhostSets[g.Target] = true
+		}
 	}
 }
 
